@@ -34,6 +34,11 @@ theorem inv_submit {c : Cfg} {s : State} {t k : Nat} {kd : Kind} {bd : List Prim
       have hwpc := h.s_wq_pc w hw
       have hww : w < c.nw := h.t_worker w (by rcases hwpc.1 with h1 | h1 <;> rw [h1] <;> rfl)
       have hex : ∃ w, w < c.nw ∧ w ∉ s.waitq.erase w := ⟨w, hww, by simp [hwe]⟩
+      have hbase : s.q.length ≤ s.awake.length := h.a_len hx (by intro e; rw [e] at hw; cases hw)
+      have hql : (s.q ++ [s.nextJob]).length = s.q.length + 1 := by simp
+      have hal : (w :: s.awake).length = s.awake.length + 1 := by simp
+      have hwa : w ∉ s.awake := by
+        intro hm; have := (h.a_mem hx w).1 hm; grind
       inv_step h
 
 theorem inv_stopCS {c : Cfg} {s : State} {t : Nat} {rest : List Act} {isD : Bool}
